@@ -139,7 +139,10 @@ def main():
             mp = os.path.join(HERE, "seeded", name, "meta.json")
             meta = json.load(open(mp))
             for prop, r in res.items():
-                meta["checks"][f"{prop}/{r['tier']}"] = r
+                key = f"{prop}/{r['tier']}"
+                if os.environ.get("VERIF_SEED", "1") != "1":
+                    key += "/seed" + os.environ["VERIF_SEED"]
+                meta["checks"][key] = r
                 print(f"{name:10s} {prop} {r['tier']:8s} exit={r['exit']} {r['first'][:160]}", flush=True)
             json.dump(meta, open(mp, "w"), indent=1)
     subprocess.run("rm -f replay/*/auto-*.json", shell=True, cwd=HERE)
